@@ -309,6 +309,15 @@ class Tifa(TifaCore, ast.NodeVisitor):
         # Make local variable either way
         self.assign_target(target, annotation_type, store_with_read=was_class_attribute)
 
+    def visit_NamedExpr(self, node):
+        """
+        Assignment expression (``name := value``): binds the name like an
+        assignment statement, and has the value's type.
+        """
+        value_type = self.visit(node.value)
+        self.assign_target(node.target, value_type)
+        return value_type
+
     def visit_Assign(self, node):
         """
         Simple assignment statement:
